@@ -71,7 +71,8 @@ def run(ctx):
     lines, meta = [], []
     for _ in range(15 if ctx.quick else 150):
         theta = rng.choice([45, 60, 90, 120]); K = rng.randint(2, 7)
-        Y = [[rng.randint(-8, 8) / 4.0, rng.randint(-8, 8) / 4.0] for _ in range(K)]
+        unit = rng.choice([1.0, 1.0, 2.0 ** -34])           # the order has no absolute tolerance: tiny units must behave the same
+        Y = [[rng.randint(-8, 8) / 4.0 * unit, rng.randint(-8, 8) / 4.0 * unit] for _ in range(K)]
         a = build(theta, K, 0.1, 0.1, 0.01, Y)
         a.L = rng.choice([1, 2, 4, 8, 12])
         # P may be read at any time: after every round, or only now and then (several rounds between two reads)
@@ -79,7 +80,7 @@ def run(ctx):
         read_at = set(range(a.L)) if every else ({t for t in range(a.L) if rng.random() < 0.35} | {a.L - 1})
         obs = []
         def ev(x, noisy=True, _Y=np.array(Y)):
-            r = _Y + np.array([[rng.randint(-4, 4) / 8.0, rng.randint(-4, 4) / 8.0] for _ in range(len(_Y))])
+            r = _Y + np.array([[rng.randint(-4, 4) / 8.0 * unit, rng.randint(-4, 4) / 8.0 * unit] for _ in range(len(_Y))])
             obs.append(r); return r
         a.problem.evaluate = ev
         for t in range(a.L):
